@@ -143,7 +143,11 @@ func runCase(dir string, caseNo int, line string) (res string) {
 				outs[i] = "-"
 				return
 			}
-			c.(*net.UnixConn).CloseWrite()
+			if conns[i].mode != "keep" {
+				c.(*net.UnixConn).CloseWrite()
+			}
+			// mode keep: the client neither half-closes nor closes: it reads until the SERVICE hangs up (its stream ends in a frame
+			// that does not decode) and keeps its own end open until the service has been shut down
 			c.SetReadDeadline(time.Now().Add(10 * time.Second))
 			b, err := io.ReadAll(c)
 			if err != nil {
@@ -154,7 +158,9 @@ func runCase(dir string, caseNo int, line string) (res string) {
 				}
 			}
 			outs[i] = vt.Hx(b)
-			c.Close()
+			if conns[i].mode != "keep" {
+				c.Close()
+			}
 		}(i)
 	}
 	wg.Wait()
@@ -177,6 +183,11 @@ func runCase(dir string, caseNo int, line string) (res string) {
 			errc = "nil"
 		}
 	case <-time.After(3 * time.Second):
+	}
+	for i := range conns {
+		if conns[i].mode == "keep" && clients[i] != nil {
+			clients[i].Close()
+		}
 	}
 	os.Remove(path)
 	var parts []string
